@@ -398,6 +398,11 @@ func checkC12(e *core.Env) {
 		} else {
 			sopts := []httpgrpc.ServerOption{httpgrpc.WithBasePath(base)}
 			if r.Intn(4) == 0 {
+				// a server with an error renderer of its own (one that leaves the reply alone): names that do not
+				// resolve are still answered NotFound
+				sopts = append(sopts, httpgrpc.ErrorRenderer(func(context.Context, *status.Status, http.ResponseWriter) {}))
+			}
+			if r.Intn(4) == 0 {
 				// defaults first, the deployment's own setting after them: the option given last is the base path
 				sopts = []httpgrpc.ServerOption{httpgrpc.WithBasePath(pick(r, "/rpc/", "/defaults/v0/", "/")), httpgrpc.WithBasePath(base)}
 			}
